@@ -373,10 +373,13 @@ def impl_ts(case):
         if isinstance(H, str):
             res["rt"] = H
         else:
-            res["rt"] = edges_of(H)
-            res["rt_nodes"] = nodes_of(H)
-            res["rt_cls"] = type(H).__name__
-            res["rt_L"] = H.max_lag
+            try:
+                res["rt"] = edges_of(H)
+                res["rt_nodes"] = nodes_of(H)
+                res["rt_cls"] = type(H).__name__
+                res["rt_L"] = H.max_lag
+            except (KeyError, TypeError, IndexError) as e:     # the imported graph has nodes that are not G's
+                res["rt"] = "foreign-node:%r" % (e.args[0] if e.args else e,)
     if case.get("A") is not None:
         A = np.zeros((nv, nv, L + 1))
         for ent in [x for x in case["A"].split(",") if x]:
@@ -386,7 +389,10 @@ def impl_ts(case):
         if isinstance(H2, str):
             res["dec"] = H2
         else:
-            res["dec"] = edges_of(H2)
+            try:
+                res["dec"] = edges_of(H2)
+            except (KeyError, TypeError, IndexError) as e:
+                res["dec"] = "foreign-node:%r" % (e.args[0] if e.args else e,)
             re = _guard(lambda: tsgraph_to_numpy(H2, var_order=list(var_order)))
             res["reenc"] = re if isinstance(re, str) else entries(re)
     res["cls_name"] = cls.__name__
